@@ -63,6 +63,19 @@ using owner_t = rlbox::sandbox_callback<void (*)(), Sbx>;
 
 template<int K>
 static owner_t reg_k(sandbox_t& s) { return s.register_callback(cbf<K>); }
+static owner_t reg(sandbox_t& s, int k);
+#ifndef LIFE_NOOP
+static sandbox_t* g_ur_sb = nullptr;
+static int g_ur_fn = -1;
+static std::string g_ur_result;
+static std::vector<owner_t> g_ur_extra;
+static void ur_hook(const char* site)
+{
+  if (std::strcmp(site, "be.unreg") != 0 || g_ur_result != "none") return;
+  try { g_ur_extra.push_back(reg(*g_ur_sb, g_ur_fn)); g_ur_result = "accepted"; }
+  catch (const std::runtime_error&) { g_ur_result = "refused"; }
+}
+#endif
 static owner_t reg(sandbox_t& s, int k)
 {
   switch (k) {
@@ -116,6 +129,7 @@ static std::string run_case(const toks_t& t)
   {
     owner_t owners[NOWN];
     int own_sb[NOWN] = { -1, -1, -1 };   // harness bookkeeping: which sandbox an owner's registration belongs to
+    int own_fn[NOWN] = { -1, -1, -1 };   // ... and which function it registered
     std::vector<owner_t> extra;
     for (size_t n = 1; n < t.size(); n++) {
       toks_t o = split(t[n], ':');
@@ -236,6 +250,7 @@ static std::string run_case(const toks_t& t)
           int j = std::stoi(o[1]), i = std::stoi(o[2]), k = std::stoi(o[3]);
           owners[j] = reg(*sb[i], k);
           own_sb[j] = i;
+          own_fn[j] = k;
 #ifdef LIFE_NOOP
           out += "r=ok";
 #else
@@ -257,6 +272,20 @@ static std::string run_case(const toks_t& t)
           int after = own_sb[j] >= 0 ? sb[own_sb[j]]->get_sandbox_impl()->unregister_calls : 0;
           out += std::string("u=ok:be") + (after > before ? "1" : "0");
 #endif
+#ifndef LIFE_NOOP
+        } else if (c == "ur") {
+          // release owner j while "another thread" tries to register the same function with the same sandbox at the moment
+          // the back end is asked to release the entry point: that registration must be refused (the function is still registered)
+          int j = std::stoi(o[1]);
+          if (owners[j].is_unregistered() || own_sb[j] < 0 || !created[own_sb[j]]) { out += "ur=skip"; }
+          else {
+            g_ur_sb = sb[own_sb[j]].get(); g_ur_fn = own_fn[j]; g_ur_result = "none";
+            rlbox::verif_backend_hook = ur_hook;
+            try { owners[j].unregister(); } catch (...) { rlbox::verif_backend_hook = nullptr; throw; }
+            rlbox::verif_backend_hook = nullptr;
+            out += "ur=ok:nested=" + g_ur_result;
+          }
+#endif
         } else if (c == "mc") {
           int j = std::stoi(o[1]), j2 = std::stoi(o[2]);
           if (j == j2 || !owners[j].is_unregistered()) { out += "mc=skip"; }
@@ -264,12 +293,13 @@ static std::string run_case(const toks_t& t)
             owners[j].~owner_t();
             new (&owners[j]) owner_t(std::move(owners[j2]));
             own_sb[j] = own_sb[j2];
+            own_fn[j] = own_fn[j2];
             out += "mc=ok";
           }
         } else if (c == "ma") {
           int j = std::stoi(o[1]), j2 = std::stoi(o[2]);
           owners[j] = std::move(owners[j2]);
-          if (j != j2) own_sb[j] = own_sb[j2];
+          if (j != j2) { own_sb[j] = own_sb[j2]; own_fn[j] = own_fn[j2]; }
           out += "ma=ok";
         } else if (c == "occ") {
           // how many entry points the back end of sandbox i has in use (they must be exactly the live registrations)
